@@ -4,6 +4,7 @@
 (*   mode "orbit": the 16-bit xorshift (7,9,8) AT ITS TRUE WIDTH: the orbit of 1 closes after exactly 65535   *)
 (*                 steps (full period: the update permutes the non-zero states in ONE cycle, 0 is fixed),   *)
 (*                 XorShiftInv is its inverse, no non-zero state maps to 0                                  *)
+(*   mode "w16"  : every 16-bit word: integer form = bit form, explicit inverse, linearity on unit vectors       *)
 (*   mode "xs"   : 8-bit xorshift for several triples: the update is a bijection (explicit inverse both      *)
 (*                 ways), fixes exactly 0, and is linear over GF(2): f(x ^ y) = f(x) ^ f(y) for all pairs    *)
 (*   mode "xo"   : xoshiro with 4-bit words (all 65536 states) for several (shift, rotation): XoPrev is the   *)
@@ -12,19 +13,29 @@
 (*   ASSUME      : the 32/64-bit definitions reproduce the worked examples of Marsaglia's paper                *)
 (* GEN role - exports (a) every state of the 16-bit orbit and (b) the seeds for the wide engines: boundary      *)
 (*   words and the pre-images (computed with the inverse) of the outputs all-ones and 1.                        *)
-EXTENDS RngOps, TLC, Json
+EXTENDS RngOps, TLC, Json, Bitwise
 
-XsTriples == {<<7, 1, 2>>, <<3, 5, 4>>, <<1, 1, 1>>, <<5, 3, 1>>, <<2, 7, 7>>}      \* triples checked on 8 bits
-XoParams == {<<1, 3>>, <<3, 1>>, <<2, 2>>}             \* (shift, rotation) pairs checked on 4-bit words
+CONSTANTS Modes,       \* which parts this TLC run covers (the pipeline runs them as concurrent TLC instances)
+          Full         \* TRUE (thorough tier): more parameter sets, 16-bit linearity on every word instead of every 4th
 
-VARIABLES mode, a, b
-vars == <<mode, a, b>>
+\* triples checked on 8 bits / (shift, rotation) pairs checked on 4-bit words
+XsTriples == IF Full THEN {<<7, 1, 2>>, <<3, 5, 4>>, <<1, 1, 1>>, <<5, 3, 1>>, <<2, 7, 7>>} ELSE {<<3, 5, 4>>, <<7, 1, 2>>}
+XoParams == IF Full THEN {<<1, 3>>, <<3, 1>>, <<2, 2>>} ELSE {<<1, 3>>}
+
+VARIABLES mode, a, b,
+          tab      \* per-mode lookup table, computed once in Init (TLC re-evaluates constant definitions on every use)
+vars == <<mode, a, b, tab>>
 Unset == -1
 
 Nat2Bits(x, w) == [i \in 1..w |-> (x \div 2^(i - 1)) % 2]
 Bits2Nat(bs) == LimbVal(bs, 1, Len(bs))
 
 XS16(x) == Bits2Nat(XorShift(Nat2Bits(x, 16), 7, 9, 8))
+\* the same update on TLC integers (Bitwise module): used to walk the 65535-step orbit quickly; mode "w16" proves
+\* XS16i = XS16 on every 16-bit word
+XS16i(x) == LET x1 == x ^^ ((x * 128) % 65536)
+                x2 == x1 ^^ (x1 \div 512)
+            IN x2 ^^ ((x2 * 256) % 65536)
 
 \* ---- seeds for the wide engines --------------------------------------------------------------------------------
 W(eng) == 16 * WordLimbs(eng)
@@ -46,45 +57,51 @@ SeedSet(eng) ==
           ELSE {})
 WideEngines == {"xs32", "xs64", "xop", "xopp", "xoss"}
 
-Init == \/ mode = "orbit" /\ a = 1 /\ b = 0                                   \* a = state, b = steps taken
-        \/ mode = "xs" /\ a \in 0..255 /\ b = Unset
-        \/ mode = "xo" /\ a \in 0..255 /\ b = Unset
-        \/ mode = "seeds" /\ a \in {1} /\ b = Unset
-
-Next == \/ mode = "orbit" /\ XS16(a) # 1 /\ a' = XS16(a) /\ b' = b + 1 /\ UNCHANGED mode
-        \/ mode \in {"xs", "xo"} /\ b = Unset /\ b' \in 0..255 /\ UNCHANGED <<mode, a>>
-
-Spec == Init /\ [][Next]_vars
-
 \* ---- laws ------------------------------------------------------------------------------------------------------
 OrbitLaws ==
-    LET x == Nat2Bits(a, 16) y == XorShift(x, 7, 9, 8) IN
-    /\ a # 0 /\ Bits2Nat(y) # 0
-    /\ XorShiftInv(y, 7, 9, 8) = x /\ XorShift(XorShiftInv(x, 7, 9, 8), 7, 9, 8) = x
-    /\ (Bits2Nat(y) = 1 => b = 65534)                      \* the orbit of 1 closes after exactly 2^16 - 1 steps
+    /\ a # 0
+    /\ (XS16i(a) = 1 => b = 65534)                         \* the orbit of 1 closes after exactly 2^16 - 1 steps
     /\ b <= 65534
 
+Unit16(k) == [i \in 1..16 |-> IF i = k THEN 1 ELSE 0]
+Img16 == [k \in 1..16 |-> XorShift(Unit16(k), 7, 9, 8)]             \* the columns of the 16 x 16 matrix of the update
+RECURSIVE XorImages(_, _, _, _)
+XorImages(x, img, k, acc) == IF k > Len(x) THEN acc
+                             ELSE XorImages(x, img, k + 1, IF x[k] = 1 THEN XorB(acc, img[k]) ELSE acc)
+W16Laws ==
+    b = Unset \/
+    LET v == 256 * a + b x == Nat2Bits(v, 16) y == XorShift(x, 7, 9, 8) IN
+    /\ Bits2Nat(y) = XS16i(v)                              \* integer form = bit-sequence form
+    /\ XorShiftInv(y, 7, 9, 8) = x /\ XorShift(XorShiftInv(x, 7, 9, 8), 7, 9, 8) = x
+    /\ (Bits2Nat(y) = 0) = (v = 0)
+    \* linear over GF(2): the image of x is the XOR of the images of the unit vectors of its set bits
+    /\ y = XorImages(x, tab, 1, Zero(16))
+    /\ (Full \/ (a + b) % 16 = 0 =>
+          \A k \in 1..16 : XorShift(XorB(x, Unit16(k)), 7, 9, 8) = XorB(y, tab[k]))
+    /\ (b % 64 = 0 => \A k \in 1..15 : UnShl(x, k) = UnShlDecl(x, k) /\ UnShr(x, k) = UnShrDecl(x, k))
+
+\* value table of the 8-bit update per triple (computed once), as integers
+XsTab == [t \in XsTriples |-> [x \in 0..255 |-> Bits2Nat(XorShift(Nat2Bits(x, 8), t[1], t[2], t[3]))]]
 XsLaws ==
     \A t \in XsTriples :
-       LET x == Nat2Bits(a, 8) fx == XorShift(x, t[1], t[2], t[3]) IN
-       /\ XorShiftInv(fx, t[1], t[2], t[3]) = x
-       /\ XorShift(XorShiftInv(x, t[1], t[2], t[3]), t[1], t[2], t[3]) = x
-       /\ (fx = Zero(8)) = (a = 0)
-       /\ UnShl(XorB(x, Shl(x, t[1])), t[1]) = x /\ UnShr(XorB(x, Shr(x, t[2])), t[2]) = x
-       /\ (b # Unset =>
-             LET y == Nat2Bits(b, 8) IN
-             XorShift(XorB(x, y), t[1], t[2], t[3]) = XorB(fx, XorShift(y, t[1], t[2], t[3])))
+       IF b = Unset
+       THEN LET x == Nat2Bits(a, 8) fx == XorShift(x, t[1], t[2], t[3]) IN
+            /\ XorShiftInv(fx, t[1], t[2], t[3]) = x
+            /\ XorShift(XorShiftInv(x, t[1], t[2], t[3]), t[1], t[2], t[3]) = x
+            /\ (fx = Zero(8)) = (a = 0)
+            /\ UnShl(XorB(x, Shl(x, t[1])), t[1]) = x /\ UnShr(XorB(x, Shr(x, t[2])), t[2]) = x
+            /\ Cardinality({tab[t][v] : v \in 0..255}) = 256                 \* a permutation of the 256 words
+       ELSE \* f(x ^ y) = f(x) ^ f(y) for every pair
+            /\ tab[t][a ^^ b] = tab[t][a] ^^ tab[t][b]
+            /\ Nat2Bits(a ^^ b, 8) = XorB(Nat2Bits(a, 8), Nat2Bits(b, 8))      \* integer xor = bitwise xor of the words
 
 XoState == <<Nat2Bits(a % 16, 4), Nat2Bits(a \div 16, 4), Nat2Bits(b % 16, 4), Nat2Bits(b \div 16, 4)>>
 Unit(k) == [j \in 1..4 |-> [i \in 1..4 |-> IF 4 * (j - 1) + i = k THEN 1 ELSE 0]]
-XoLaws ==
-    b = Unset \/
-    LET s == XoState IN
-    /\ \A p \in XoParams :
-          LET f == XoNext(s, p[1], p[2]) IN
-          /\ XoPrev(f, p[1], p[2]) = s /\ XoNext(XoPrev(s, p[1], p[2]), p[1], p[2]) = s
-          /\ (f = XoZero(4)) = (s = XoZero(4))
-          /\ \A k \in 1..16 : XoNext(XoXor(s, Unit(k)), p[1], p[2]) = XoXor(f, XoNext(Unit(k), p[1], p[2]))
+XoImg == [p \in XoParams |-> [k \in 1..16 |-> XoNext(Unit(k), p[1], p[2])]]
+RECURSIVE XoXorImages(_, _, _, _)
+XoXorImages(x, img, k, acc) == IF k > Len(x) THEN acc
+                               ELSE XoXorImages(x, img, k + 1, IF x[k] = 1 THEN XoXor(acc, img[k]) ELSE acc)
+XoScramblerLaws(s) ==
     \* scramblers: limb arithmetic (base 4, two limbs) = bit arithmetic; "+" is commutative; rotation is a permutation
     /\ AddW(s[1], s[4], 2) = AddB(s[1], s[4]) /\ AddW(s[1], s[4], 2) = AddW(s[4], s[1], 2)
     /\ Bits2Nat(AddB(s[1], s[4])) = (Bits2Nat(s[1]) + Bits2Nat(s[4])) % 16
@@ -92,15 +109,43 @@ XoLaws ==
     /\ OutPlus(s, 2) = AddB(s[1], s[4])
     /\ OutPlusPlus(s, 3, 2) = AddB(RotL(AddB(s[1], s[4]), 3), s[1])
     /\ OutStarStar(s, 3, 2) = MulB(RotL(MulB(s[2], 5), 3), 9)
+XoLaws ==
+    b = Unset \/
+    LET s == XoState IN
+    /\ \A p \in XoParams :
+          LET f == XoNext(s, p[1], p[2]) IN
+          /\ XoPrev(f, p[1], p[2]) = s /\ XoNext(XoPrev(s, p[1], p[2]), p[1], p[2]) = s
+          /\ (f = XoZero(4)) = (s = XoZero(4))
+          \* linear over GF(2): f(s) is the XOR of the images of the unit vectors of the set bits of s, and
+          \* (spot check of the additive form on every 16th state) f(s ^ e) = f(s) ^ f(e)
+          /\ f = XoXorImages(s[1] \o s[2] \o s[3] \o s[4], tab[p], 1, XoZero(4))
+          /\ (Full \/ (a + b) % 16 = 0 => \A k \in 1..16 : XoNext(XoXor(s, Unit(k)), p[1], p[2]) = XoXor(f, tab[p][k]))
+    /\ (b % 16 = 0 => XoScramblerLaws(s))           \* they do not read s2: once per (s0, s1, s3)
     /\ \A r \in 0..4 : RotL(RotL(s[3], r), 4 - r) = s[3]
     \* words <-> limbs round trip, 8-bit word of two base-16 limbs
     /\ LET x8 == s[1] \o s[2] IN BitsOfLimbs(LimbsOfBits(x8, 4), 4) = x8 /\ LimbsOK(LimbsOfBits(x8, 4), 2, 4)
     /\ LeLimbs(LimbsOfBits(s[1] \o s[2], 4), LimbsOfBits(s[3] \o s[4], 4)) = (a <= b)
 
 Laws == CASE mode = "orbit" -> OrbitLaws
+          [] mode = "w16"   -> W16Laws
           [] mode = "xs"    -> XsLaws
           [] mode = "xo"    -> XoLaws
           [] OTHER          -> TRUE
+
+InitM ==
+        \/ mode = "orbit" /\ a = 1 /\ b = 0                                   \* a = state, b = steps taken
+        \/ mode = "w16" /\ a \in 0..255 /\ b = Unset
+        \/ mode = "xs" /\ a \in 0..255 /\ b = Unset
+        \/ mode = "xo" /\ a \in 0..255 /\ b = Unset
+        \/ mode = "seeds" /\ a \in {1} /\ b = Unset
+
+Init == /\ mode \in Modes /\ InitM
+        /\ tab = CASE mode = "w16" -> Img16 [] mode = "xs" -> XsTab [] mode = "xo" -> XoImg [] OTHER -> << >>
+
+Next == \/ mode = "orbit" /\ XS16i(a) # 1 /\ a' = XS16i(a) /\ b' = b + 1 /\ UNCHANGED <<mode, tab>>
+        \/ mode \in {"w16", "xs", "xo"} /\ b = Unset /\ b' \in 0..255 /\ UNCHANGED <<mode, a, tab>>
+
+Spec == Init /\ [][Next]_vars
 
 \* worked examples of the paper (Marsaglia 2003, section 4: xor32 with y = 2463534242, xor64 with x = 88172645463325252)
 ASSUME KnownAnswers ==
